@@ -234,6 +234,11 @@ static ares_status_t parse_nameserver_uri(ares_buf_t     *buf,
   sconfig->tcp_port = sconfig->udp_port;
   port              = ares_uri_get_query_key(uri, "tcpport");
   if (port != NULL) {
+    /* same form as the port of the authority: 1 to 5 digits */
+    if (!ares_str_isnum(port) || ares_strlen(port) > 5) {
+      status = ARES_EBADSTR;
+      goto done;
+    }
     sconfig->tcp_port = (unsigned short)atoi(port);
   }
 
@@ -398,7 +403,12 @@ static ares_status_t ares_sconfig_linklocal(const ares_channel_t *channel,
 
   if (ares_str_isnum(ll_iface)) {
     char ifname[IF_NAMESIZE] = "";
-    ll_scope                 = (unsigned int)atoi(ll_iface);
+    /* an interface index of more than 9 digits does not fit and must not
+     * reach atoi(), which is undefined on overflow */
+    if (ares_strlen(ll_iface) > 9) {
+      return ARES_ENOTFOUND;
+    }
+    ll_scope = (unsigned int)atoi(ll_iface);
     if (channel->sock_funcs.aif_indextoname == NULL ||
         channel->sock_funcs.aif_indextoname(ll_scope, ifname, sizeof(ifname),
                                             channel->sock_func_cb_data) ==
